@@ -44,6 +44,17 @@ def build_graph(g):
             graph_rules.add(p)  # lelwel marks an unused part as used and hangs it below the start body
             if rules[p].regex is not None and rules[start].regex is not None:
                 extra_edges.append((rules[start].regex, rules[p].regex))
+    # since `fix:` 3c675e9 everything that is reachable from an unreferenced part is parsed (and analysed) as well
+    st = [p for p in graph_rules if p not in used]
+    while st:
+        nm = st.pop()
+        r = rules.get(nm)
+        if r is None or r.regex is None:
+            continue
+        for n in r.regex.walk():
+            if n.k == "name" and n.v[:1].islower() and n.v in rules and n.v not in graph_rules:
+                graph_rules.add(n.v)
+                st.append(n.v)
     for nm in graph_rules:
         r = rules[nm]
         if r.regex is None:
